@@ -451,3 +451,31 @@ Proof.
   now apply chunks_of_concat.
 Qed.
 End Export.
+
+(* ================= the window, cell by cell, without defaults ================= *)
+Section Meaning.
+Context {A : Type}.
+Variable zero : A.
+
+Theorem window_meets_spec c (data : list (list A)) s n chans :
+  rect c data -> chans_ok c chans -> 0 <= n ->
+  Window_Spec zero data s n chans (window zero data s n chans).
+Proof.
+  intros Hr Hok Hn. unfold Window_Spec. split.
+  { unfold window, zlen. rewrite map_length, zrange_length. lia. }
+  intros i j ch Hi Hj. cbv zeta. set (t := s - n / 2 + i).
+  exists (map (cell zero data t) chans). split; [|split].
+  - unfold window.
+    apply (map_nth_error (fun t0 => map (cell zero data t0) chans) (Z.to_nat i) (zrange (s - n / 2) (Z.to_nat n))).
+    rewrite (nth_error_nth' _ 0) by (rewrite zrange_length; lia).
+    rewrite zrange_nth by lia. f_equal. subst t. lia.
+  - unfold zlen. now rewrite map_length.
+  - rewrite (map_nth_error _ _ _ Hj).
+    destruct ((t <? 0) || (zlen data <=? t) || (ch =? -1)) eqn:E.
+    + unfold cell. now rewrite E.
+    + assert (Hch : 0 <= ch < c).
+      { unfold chans_ok in Hok. rewrite Forall_forall in Hok. pose proof (Hok ch (nth_error_In _ _ Hj)). lia. }
+      destruct (cell_inside zero data c t ch Hr ltac:(lia) Hch) as (row & H1 & H2).
+      now rewrite H1, H2.
+Qed.
+End Meaning.
